@@ -1,11 +1,17 @@
 """Table of checks: property -> stages (harness, build variant, campaign sizes per tier)."""
 
 RT = ['rsv_rt.c']
+MICRO = ('h_order', 'h_numeric', 'h_topology', 'h_partition', 'h_alloc', 'h_heap')
 
 
 def stage(harness, hx, name=None, variant='core', exclude=(), quick=None, thorough=None, common=None, **kw):
     d = dict(harness=harness, hx=list(hx) + RT, name=name or harness, variant=variant, exclude=list(exclude),
              quick=quick or {}, thorough=thorough or {}, common=common or {})
+    if harness in MICRO:
+        # in-process component harnesses: a case takes microseconds, so a case that does not return is a hang
+        d['hang_is_failure'] = True
+        d['replay_case_timeout'] = 30
+        d['common'].setdefault('case_timeout', 30)
     d.update(kw)
     return d
 
@@ -57,3 +63,20 @@ CHECKS['C14'] = dict(
         'arithmetic, range variables and routing macros are the real ones',
         'ranks <= 64 and threads <= 64 per rank; LPs <= 2^21',
     ])
+
+_alloc_assume = [
+    'the LP context is a mock (one LP); multi.c, buddy.c, ckpt.c and random.c are the real ones from /repo',
+    'rollback targets and checkpoint/fossil positions are event-end positions, as produced by lp/process.c and gvt/fossil.c',
+    'allocations re-issued while coasting forward may return other addresses than originally (not demanded equal)',
+]
+for _p, _q, _t in (('C12', 24000, 480000), ('C05', 24000, 480000), ('C13', 24000, 480000)):
+    CHECKS[_p] = dict(
+        stages=[
+            stage('h_alloc', ['h_alloc.c'], name='h_alloc(64KiB arenas)',
+                  quick=dict(cases=_q, min_nontrivial=300, time_budget=150),
+                  thorough=dict(cases=_t, min_nontrivial=3000, time_budget=1200)),
+            stage('h_alloc', ['h_alloc.c'], name='h_alloc(256B arenas)', variant='core_small',
+                  quick=dict(cases=_q, min_nontrivial=300, time_budget=150),
+                  thorough=dict(cases=_t, min_nontrivial=3000, time_budget=1200)),
+        ],
+        assumptions=_alloc_assume)
